@@ -15,6 +15,7 @@ typed binds to (per slot class, DESIGN §4 C11); compile() says which continuati
 inspect.getdoc gives the docstring.  The index oracle is validated against upstream's
 hand-written table (test/test_api/test_call_signatures.py:_calls) before it is used.
 """
+import inspect
 import os
 
 from .. import boot, canon, pool
@@ -216,6 +217,11 @@ def _check_full_doc(fail, full, raw, ref, api, layout):
     want = [M.describe(ref.sig, False)]
     if ref.unbound_sig is not None:
         want.append(M.describe(ref.unbound_sig, False))   # the definition as written (self kept)
+    try:
+        if M.describe(M.reparse(head), False) in want:
+            return                  # one signature (possibly spanning lines: multi-line default)
+    except Exception:
+        pass
     for line in head.split('\n'):
         try:
             got = M.describe(M.reparse(line), False)
@@ -239,6 +245,104 @@ def _work_definitions(task):
         out['carriers'][carrier] = out['carriers'].get(carrier, 0) + 1
     _drop_parser_cache()
     return out
+
+
+# --------------------------------------------------------------------------- callable kinds
+
+KIND_ARGS = '1, zz=v, '        # one call line per object, the cursor in four of its slots
+KIND_PROBES = ((0, (), ('s3',)), (1, (), ('s1',)), (3, (('p',),), ('s3',)),
+               (9, (('p',), ('k', 'zz')), ('s3',)))
+
+
+def _work_kinds(task):
+    """One parameter list as method / classmethod / staticmethod / __call__ / __init__, plain and
+    behind a functools.wraps-style pass-through decorator, reached bound and unbound (every
+    access Python offers): parameters, kinds, to_string round trip, bracket_start, index in
+    four slots and call shapes against inspect.signature of the very object.  (Names and
+    docstrings of these objects are the docstring family's subject, not judged here.)"""
+    pl = task['pl']
+    fails = []
+    evals = cells = 0
+    members_seen = {}
+    names_ = [p[1] for p in pl] + [M.UNKNOWN]
+    for decorated in (False, True):
+        code, members = M.build_kind_family(pl, decorated)
+        ns = {}
+        exec(compile(code, '<c11-kinds>', 'exec'), ns)
+        line0 = code.count('\n') + 1
+        lines = [(li, mid, callee, off, pre, cur) for li, (mid, callee) in enumerate(members)
+                 for off, pre, cur in KIND_PROBES]
+        script = _script(code + ''.join('%s(%s)\n' % (callee, KIND_ARGS)
+                                       for _m, callee in members))
+        for li, mid, callee, off, pre, cur in lines:
+            args = KIND_ARGS[:off]
+            what = 'kinds:%s%s:%s|%s(%s^%s)' % ('deco.' if decorated else '', mid,
+                                                M.plist_id(pl), callee, args, KIND_ARGS[off:])
+            obj = eval(callee, ns)
+            sig = inspect.signature(obj)
+            want = M.describe(sig, True)
+            detail0 = {'definition': code, 'call': '%s(%s|%s)' % (callee, args, KIND_ARGS[off:]),
+                       'inspect.signature': str(sig)}
+
+            def fail(site, **detail):
+                fails.append({'site': site, 'what': what, 'detail': dict(detail0, **detail)})
+
+            evals += 1
+            cells += 1
+            members_seen[mid] = members_seen.get(mid, 0) + 1
+            try:
+                sigs = script.get_signatures(line0 + li, len(callee) + 1 + len(args))
+                if len(sigs) != 1:
+                    fail('signature-count', observed=[x.to_string() for x in sigs])
+                    continue
+                obs = {'to_string': sigs[0].to_string(), 'index': sigs[0].index,
+                       'bracket_start': list(sigs[0].bracket_start),
+                       'params': [[q.name, q.kind.name] for q in sigs[0].params]}
+            except BaseException as e:
+                if isinstance(e, (KeyboardInterrupt, SystemExit)):
+                    raise
+                fail(canon.exc_site(e), traceback=canon.short_tb(e))
+                continue
+            exp_params = [[n, k] for n, k, _d, _a in want['params']]
+            if obs['bracket_start'] != [line0 + li, len(callee)]:
+                fail('bracket_start-mismatch', expected=[line0 + li, len(callee)],
+                     observed=obs['bracket_start'])
+            if obs['params'] != exp_params:
+                fail('params-mismatch', expected=exp_params, observed=obs['params'],
+                     to_string=obs['to_string'])
+                continue
+            st, allowed = M.IndexOracle(sig).allowed(pre, cur)
+            if st == 'judged' and obs['index'] not in allowed:
+                fail('index-mismatch@' + _site(cur, pre), expected=sorted(allowed, key=repr),
+                     observed=obs['index'])
+            if args:
+                continue          # the rest does not depend on the cursor
+            try:
+                back = M.reparse(obs['to_string'])
+                got = M.describe(back, True)
+            except Exception as e:
+                back = None
+                got = '%s: %s' % (type(e).__name__, e)
+            if not isinstance(got, dict) or got['params'] != want['params'] \
+                    or got['return'] not in (None, want['return']):
+                fail('to_string-roundtrip', to_string=obs['to_string'], expected=want,
+                     observed=got)
+            elif back is not None:
+                bad = []
+                for npos, kws in M.call_shapes(names_):
+                    evals += 1
+                    r = M.runs(obj, npos, kws)
+                    if r != M.binds(sig, npos, kws):
+                        fails.append({'site': 'HARNESS:reference-signature-does-not-model-execution',
+                                      'what': what, 'detail': {'shape': [npos, list(kws)]}})
+                        break
+                    if r != M.binds(back, npos, kws):
+                        bad.append([npos, list(kws), 'runs' if r else 'TypeError'])
+                if bad:
+                    fail('call-shapes-mismatch', to_string=obs['to_string'], shapes=bad[:6],
+                         n_bad=len(bad))
+    _drop_parser_cache()
+    return {'fails': fails, 'evals': evals, 'cells': cells, 'carriers': {}, 'kinds': members_seen}
 
 
 # --------------------------------------------------------------------------- index level
@@ -467,12 +571,40 @@ def _levels(tier):
                               'doc': plain_keys[k % len(plain_keys)]})
                 k += 1
     tasks.sort(key=lambda t: -len(t['carriers']))
-    lv.append(('definitions(<=%d params x default x annotation; %s)'
-               % (nmax, 'fn/meth/umeth/sm/init on every list, wrappers on every list of <=3, '
+    # ... and every kind skeleton with white-space string literals (run of blanks, tab, line
+    # break, ...) as defaults and annotations, each literal at each position
+    for n in range(1, nmax + 1):
+        for sk in M.skeletons(n):
+            for j in range(len(M.WS_LITERALS)):
+                pl = M.make_plist(sk, M.ws_decoration(sk, j))
+                tasks.append({'id': 'def:' + M.plist_id(pl), 'pl': pl,
+                              'carriers': ['fn'] if tier == 'quick' else
+                              ['fn', 'meth', 'init', 'wraps', 'pw'],
+                              'doc': plain_keys[k % len(plain_keys)]})
+                k += 1
+    lv.append(('definitions(<=%d params x default x annotation + %d white-space string literals as '
+               'default/annotation on every kind skeleton; %s)'
+               % (nmax, len(M.WS_LITERALS),
+                  'fn/meth/umeth/sm/init on every list, wrappers on every list of <=3, '
                   'classmethod on every kind skeleton plain + decorated' if tier == 'thorough' else
                   'function on every list, 9 carriers on every kind skeleton plain + decorated '
                   '(classmethod: plain)'),
                'jv.props.c11:_work_definitions', tasks))
+    # 1b. callable kinds x pass-through decorator x bound/unbound access
+    tasks = []
+    kmaxp = 2 if tier == 'quick' else nmax
+    for n in range(kmaxp + 1):
+        for sk in M.skeletons(n):
+            variants = [M.make_plist(sk)]
+            full = M.make_plist(sk, M.full_decoration(sk))
+            if full != variants[0] and (tier != 'quick' or n <= 1):
+                variants.append(full)     # (classmethod analysis costs ~0.5 s per module)
+            for pl in variants:
+                tasks.append({'id': 'kinds:' + M.plist_id(pl), 'pl': pl})
+    lv.append(('callable kinds({method, classmethod, staticmethod, __call__, __init__} x {plain, '
+               'functools.wraps pass-through decorator} x every bound/unbound access = %d objects; '
+               'kind skeletons of <=%d params plain (+ default/annotation: %s); 4 cursor slots)'
+               % (2 * len(M.KIND_MEMBERS), kmaxp, '<=1 param' if tier == 'quick' else 'all'), 'jv.props.c11:_work_kinds', tasks))
     # 2. every docstring layout x every carrier on three lists
     tasks = []
     for sk in ((), ('pk',), ('po', 'pk', 'va', 'ko')):
@@ -595,6 +727,7 @@ def run(ctx):
     ctx.absorb(pres, 'c11')
     skipped = {}
     cpu = {}
+    kinds = {}
     for i in pres.skipped:
         skipped[tasks[i]['level']] = skipped.get(tasks[i]['level'], 0) + 1
     for i, t in enumerate(tasks):
@@ -614,6 +747,8 @@ def run(ctx):
             classes[k] = classes.get(k, 0) + v
         for k, v in r.get('carriers', {}).items():
             carriers[k] = carriers.get(k, 0) + v
+        for k, v in r.get('kinds', {}).items():
+            kinds[k] = kinds.get(k, 0) + v
         if 'carrier' in t:
             carriers[t['carrier']] = carriers.get(t['carrier'], 0) + 1
         for f in r['fails']:
@@ -644,6 +779,7 @@ def run(ctx):
         'index_cells_by_class': dict(sorted(classes.items())),
         'index_cells_judged': judged,
         'tasks_by_carrier': dict(sorted(carriers.items())),
+        'kind_family_cells_by_member': dict(sorted(kinds.items())),
         'worker_cpu_s_by_level_and_carrier': cpu,
         'oracle_validation_upstream_table': {k: v for k, v in val.items() if k != 'failures'},
         'levels_completed': done, 'exhaustive': exhaustive, 'samples': samples,
